@@ -462,20 +462,46 @@ def run(chk):
         chk.broke("_rolling_hash2_run not found")
     else:
         buf_n = F.arg_index("buffer")
-        # loop exit edge of the first loop: conditional branch comparing i with w = load state->w
-        exit_edges = []
+        # "the window has been filled" = the scan position is >= w.  The facts of the conditional edges that dominate
+        # a look-back address computation are collected as an order graph (a >= b) over SSA values / local variables
+        # and the position variable (the one handed to the scan routine by address) must reach w in it: `i >= w`
+        # directly, or through a chain such as i >= head_len, head_len >= w.
+        def vkey(v):
+            r = F.resolve(v)
+            while isinstance(r, ir.Inst) and r.op in ("zext", "sext", "trunc", "freeze"):
+                r = F.resolve(r.ops[0])
+            if isinstance(r, ir.Inst) and r.op == "load":
+                root, off = F.ptr_root(r.ops[0])
+                if isinstance(root, ir.Inst) and root.op == "alloca":
+                    return ("slot", root.id)
+                fld = F.field(r.ops[0])
+                if fld and fld[1] and fld[1][-1][1] == "w":
+                    return ("w",)
+            if isinstance(r, ir.Inst):
+                return ("i", r.id)
+            c = F.const_int(r) if isinstance(r, dict) else None
+            if c is not None:
+                return ("c", c)
+            return ("v", repr(r))
+        cond_edges = []
         for B in F.blocks:
             T = B.insts[-1]
-            if T.op == "br" and T.raw.get("cond"):
+            if T.op == "br" and T.raw.get("cond") and T.raw["succ"][0] != T.raw["succ"][1]:
                 nc = ir.norm_cond(F, T.ops[0])
-                if nc and isinstance(nc[2], ir.ValRef):
-                    rhs = F.resolve(nc[2].v)
-                    if isinstance(rhs, ir.Inst) and rhs.op == "load":
-                        fld = F.field(rhs.ops[0])
-                        if fld and fld[1] and fld[1][-1][1] == "w" and nc[1] in ("ult", "uge"):
-                            # successor taken when i >= w
-                            t, fl = T.raw["succ"]
-                            exit_edges.append((B.id, fl if nc[1] == "ult" else t))
+                if nc and nc[1] in ("ult", "uge", "ule", "ugt", "eq", "ne"):
+                    lhs = vkey(nc[0])
+                    rhs = vkey(nc[2].v) if isinstance(nc[2], ir.ValRef) else ("c", nc[2])
+                    t, fl = T.raw["succ"]
+                    for (succ, pred) in ((t, nc[1]), (fl, {"ult": "uge", "uge": "ult", "ule": "ugt", "ugt": "ule", "eq": "ne", "ne": "eq"}[nc[1]])):
+                        cond_edges.append(((B.id, succ), lhs, pred, rhs))
+        pos_keys = set()
+        for I in F.all_insts():
+            if I.op == "call" and (I.callee or "").startswith("_rolling_hash2_run_until") and I.ops:
+                r0 = F.resolve(I.ops[0])
+                if isinstance(r0, ir.Inst) and r0.op == "alloca":
+                    pos_keys.add(("slot", r0.id))
+        if not pos_keys:
+            chk.broke("_rolling_hash2_run: the position variable handed to the scan routine was not found")
         neg = []
         for I in F.all_insts():
             if I.op == "getelementptr":
@@ -483,14 +509,31 @@ def run(chk):
                 if F.is_arg(root, buf_n) and mentions_minus_w(F, I, 0):
                     neg.append(I)
         chk.floor("window look-back address computations", len(neg), 2)
-        if len(exit_edges) != 1:
-            chk.broke("_rolling_hash2_run: expected one `i < w` loop, found %d" % len(exit_edges))
-        else:
-            for I in neg:
-                ok = F.edge_dominates(exit_edges[0], I)
-                chk.obligation("R08.3", ok, key=I.id, sample={"function": F.name, "line": I.line})
-                if not ok:
-                    chk.finding(Finding("R08.3", "rolling_hash/rolling_hash2.c", F.name, "look-back-before-window", "an address below `buffer` (buffer - w / buffer + i - w) is formed before the first w bytes have been consumed", loc=I.loc()))
+        for I in neg:
+            ge = {}
+            for (edge, lhs, pred, rhs) in cond_edges:
+                if not F.edge_dominates(edge, I):
+                    continue
+                if pred in ("uge", "ugt", "eq"):
+                    ge.setdefault(lhs, set()).add(rhs)
+                if pred in ("ule", "ult", "eq"):
+                    ge.setdefault(rhs, set()).add(lhs)
+            ok = False
+            for pk in pos_keys:
+                seen_ = {pk}
+                st_ = [pk]
+                while st_:
+                    x = st_.pop()
+                    if x == ("w",):
+                        ok = True
+                        break
+                    for y in ge.get(x, ()):
+                        if y not in seen_:
+                            seen_.add(y)
+                            st_.append(y)
+            chk.obligation("R08.3", ok, key=I.id, sample={"function": F.name, "line": I.line, "dominating_order_facts": sum(len(v) for v in ge.values())})
+            if not ok:
+                chk.finding(Finding("R08.3", "rolling_hash/rolling_hash2.c", F.name, "look-back-before-window", "an address below `buffer` (buffer - w / buffer + i - w) is formed where the branches taken so far do not imply that the first w bytes have been consumed (position >= w)", loc=I.loc()))
     # ---- R08.6 the ctx layer's variable-length copy helper never reads beyond src + nbytes
     n86 = 0
     for src_, M in sorted(mods.items()):
